@@ -399,6 +399,16 @@ var c01FrontOaPinned = []frontOaPinned{
 			`{"rn":1}`, `{"rn":"a","tags":[]}`, `{"rn":"a","dict":{}}`, `{"rn":"a","c":-1}`, `{"rn":"a","aa":2}`, `{"rn":"a","on":null}`}},
 	{"oapinint64", `{"R": {"type": "integer", "format": "int64"}, "U": {"type": "integer"}}`, "U",
 		[]string{`9223372036854775808`, `9223372036854775807`, `-9223372036854775808`, `1.0`, `1.5`}},
+	// getArgs converts an integer schema's float64 bound with int64(*v): a bound >= 2^63 (kin-openapi reads int64's own maximum
+	// 9223372036854775807 as the float64 2^63) overflows to math.MinInt64 — the IR, the generated Validate() and the emitted
+	// schema then reject every value (proposed finding C12/openapi/integer-bound-overflows-int64; tie: verifkit/front_emit.py)
+	{"oapinint64max", `{"R": {"type": "object", "additionalProperties": false, "required": ["id"], "properties": {
+	    "id": {"type": "integer", "format": "int64", "minimum": 0, "maximum": 9223372036854775807}}}}`, "R",
+		[]string{`{"id": 87}`, `{"id": -1}`, `{}`}},
+	// … and truncates a fractional bound towards zero: `minimum: 0.5` becomes `>= 0`
+	{"oapinfracbound", `{"R": {"type": "object", "additionalProperties": false, "properties": {
+	    "n": {"type": "integer", "format": "int64", "minimum": 0.5}, "m": {"type": "integer", "format": "int64", "maximum": -0.5}}}}`, "R",
+		[]string{`{"n": 0}`, `{"n": 1}`, `{"m": 0}`, `{"m": -1}`}},
 	// witness of C01_openapi_parser_sound_counterexample (lean/Cog/Props/C01.lean: `OA.cxComps`)
 	{"oapinnullbool", `{"R": {"type": "boolean", "nullable": true}}`, "R", []string{`null`, `true`, `0`}},
 	{"oapinflat", `{"R": {"type": "object", "additionalProperties": false, "required": ["code", "n"], "properties": {
@@ -487,6 +497,30 @@ func c01FrontOaEmit(out *bufio.Writer, c frontOaCase, hist map[string]int) {
 	for _, d := range c.Docs {
 		// instances of the C08 composition: every sub-document at a flat object component
 		fmt.Fprintf(out, "oafc08 %s %s.fe %s %s\t-\tok\n", c.ID, c.ID, c.Root, d.Doc.sexp())
+	}
+	// source components → real front-end → real jsonschema jenny: does the EMITTED schema accept the document? (lean/Cog/Drv/FrontEmitDrv.lean)
+	erv, etext, eerr := c01FrontRealEmitted(real, c.Root)
+	if eerr == nil {
+		if ejv, err := parseJV([]byte(etext)); err == nil {
+			fmt.Fprintf(out, "-\temitted %s %s\tok\n", c.ID, ejv.json())
+		}
+	} else {
+		fmt.Fprintf(out, "-\temitted-err %s %s\tok\n", c.ID, labOneLine(shortErr(eerr)))
+	}
+	for _, d := range c.Docs {
+		src := func() (ok bool) {
+			defer func() {
+				if rec := recover(); rec != nil {
+					ok = false
+				}
+			}()
+			return rootRef.Value.VisitJSON(d.Doc.toAny(false), openapi3.EnableFormatValidation()) == nil
+		}()
+		remit := "n/a"
+		if eerr == nil {
+			remit = fmt.Sprint(erv.validate(d.Doc) == nil)
+		}
+		fmt.Fprintf(out, "oafc12 %s %s.fe %s %s\tsrc=%v remit=%s\tok\n", c.ID, c.ID, c.Root, d.Doc.sexp(), src, remit)
 	}
 	for _, d := range c.Docs {
 		valid := func() (ok bool) {
